@@ -532,6 +532,7 @@ pub fn build_image(
         strings.push(d);
         name_idx = strings.len() as u8;
     }
+    let usage_unspecified = crate::tape::gen() >= 2 && !pd.sms.is_empty() && t.flag(15, 100, "sm_usage_unspecified");
     let mut sms: Vec<SmDesc> = Vec::new();
     if let Some((m, _)) = &mailbox {
         sms.push(SmDesc { start: m.recv_offset, length: m.recv_size, control: 0x26, enable: 1, usage: 1 });
@@ -549,7 +550,9 @@ pub fn build_image(
             length: ((bits + 7) / 8) as u16,
             control: if *is_out { 0x24 } else { 0x20 },
             enable: 1,
-            usage: if *is_out { 3 } else { 4 },
+            // Older devices leave the usage byte at 0; the control byte then says what the sync
+            // manager is for.
+            usage: if usage_unspecified { 0 } else if *is_out { 3 } else { 4 },
         });
         for p in pdos {
             if *is_out {
